@@ -128,6 +128,60 @@ func c05r2(c *Ctx) {
 		c.Paths++
 		c.check(f.CFG().Dominates(cancelIf.Cond, rd[0].Expr), R, f.Key+": CancelFlag test ≺ opening the next source", c.pos(cancelIf), "dominated", "a new source file is opened without consulting the cancel flag")
 	}
+	// a cancel must not be honoured while an in-place rewritten destination still holds
+	// unscanned records: the deferred endGCWriting truncates at the write head
+	if cancelIf != nil {
+		begins := f.CallsTo("store.dataChunk.beginGCWriting")
+		var cancelRet ast.Node
+		ast.Inspect(cancelIf.Body, func(n ast.Node) bool {
+			if r, ok := n.(*ast.ReturnStmt); ok {
+				cancelRet = r
+			}
+			return true
+		})
+		// marker of a completed scan: the first statement after the record loop (the Src != Dst test)
+		done := func(n ast.Node) bool {
+			if e, ok := n.(ast.Expr); ok {
+				for _, a := range prog.Decompose(e, true, nil) {
+					if prog.AtomCmp(a, token.NEQ, prog.IsField(info, "store.GCState.Src"), prog.IsField(info, "store.GCState.Dst")) {
+						return true
+					}
+				}
+			}
+			return false
+		}
+		// …or the cancel branch restores the write head of a still unscanned in-place destination
+		restores := func(n ast.Node) bool {
+			e, ok := n.(ast.Expr)
+			if !ok || !prog.MentionsField(info, e, "store.dataChunk.rewriting") {
+				return false
+			}
+			var is *ast.IfStmt
+			ast.Inspect(cancelIf.Body, func(y ast.Node) bool {
+				if i2, ok := y.(*ast.IfStmt); ok && i2.Cond == e {
+					is = i2
+				}
+				return true
+			})
+			if is == nil {
+				return false
+			}
+			okR := false
+			ast.Inspect(is.Body, func(y ast.Node) bool {
+				if as, ok := y.(*ast.AssignStmt); ok && len(as.Lhs) == 1 && prog.IsField(info, "store.dataChunk.writingHead")(as.Lhs[0]) && prog.IsField(info, "store.dataChunk.size")(prog.Unparen(as.Rhs[0])) {
+					okR = true
+				}
+				return true
+			})
+			return okR
+		}
+		if len(begins) > 0 && cancelRet != nil {
+			c.Paths++
+			early := f.CFG().ReachesWithout(begins[0].Expr, cancelRet, func(n ast.Node) bool { return done(n) || restores(n) })
+			c.check(!early, R, f.Key+": cancel not honoured before the in-place source was scanned", c.pos(cancelRet), "every path from beginGCWriting to the cancel return completes a scan first",
+				"the cancel return is reachable right after beginGCWriting (head of the first source iteration) before any record of the first source was scanned: when the destination is that source (in-place rewrite, write head 0) the deferred endGCWriting truncates it to 0 and removes the file with all its live records")
+		}
+	}
 	// inside the record loop only error exits
 	var loop *ast.ForStmt
 	for _, a := range f.Enclosing(nexts[0].Expr) {
